@@ -268,8 +268,9 @@ func genInventory() (string, error) {
 							}
 						case *ast.TypeSpec:
 							what := "type " + s.Name.Name
-							if st, ok := s.Type.(*ast.StructType); ok && d != "ast" {
-								// struct types outside ast/ (those are Gen/AstSchema): the fields are part of the declaration
+							if st, ok := s.Type.(*ast.StructType); ok {
+								// the fields are part of the declaration - also for the node types of ast/ (Gen/AstSchema lists their CHILD slots only; a
+								// scratch field added to a node, a cache, would otherwise go unnoticed)
 								var fs []string
 								for _, fl := range st.Fields.List {
 									if len(fl.Names) == 0 {
